@@ -56,6 +56,23 @@ def one(out: Outcome, rng, name, cls, params, ref, test, K, method, lines, expec
         res, logs = det.compare(X=Y)
         results.append((float(res.distance), [float(v) for v in logs["perm"]["permuted_statistics"]], float(logs["perm"]["p_value"]),
                         float(logs["perm"]["observed_statistic"])))
+    # what the callback will pass to the stand-alone statistic, against the model of the keyword plumbing (`Kwargs.callbackKwargs`)
+    kind = {"PSI": "psi", "Hellinger": "hellinger", "Bhattacharyya": "bhattacharyya", "HI": "hi", "JS": "js", "KL": "kl", "EMD": "emd", "Energy": "energy", "MMD": "mmd"}[name]
+
+    def canon(k, v):
+        if v is None:
+            return "None"
+        if callable(v):
+            return "k"
+        if k == "sqrt_div":
+            return "np.sqrt(2)" if float(v) == float(np.sqrt(2)) else repr(float(v))
+        if isinstance(v, float) and v == int(v):
+            return str(int(v))
+        return str(v)
+    kw_impl = ";".join(sorted(f"{k}={canon(k, v)}" for k, v in det.statistical_kwargs.items()))
+    extra = " ".join(f"{k}={canon(k, v)}" for k, v in params.items() if k not in ("num_bins", "chunk_size", "kernel"))
+    lines.append(f"kw {kind} {params.get('num_bins', 10)} {params.get('chunk_size') or '-'} {extra}".rstrip())
+    expect.append((kw_impl, {"detector": name, "params": {k: (v if not callable(v) else "rbf") for k, v in params.items()}, "kwargs_tie": True}))
     rep = {"detector": name, "params": {k: (v if not callable(v) else "rbf") for k, v in params.items()}, "ref": ref, "test": test,
            "num_permutations": K, "method": method, "random_state": seed, "total_num_permutations": user_mt}
     dist, null, pval, observed = results[0]
@@ -169,6 +186,12 @@ def run(out: Outcome) -> None:
         out.findings["KF-C13-1"].hits += 1 if not close(formulas(0, 1, 2)["approximate-spec"], formulas(0, 1, 2)["approximate-as-coded"], 1e-12) else 0
     got = run_driver(lines)
     for g, (val, rep) in zip(got, expect):
+        if rep.get("kwargs_tie"):
+            if g == val:
+                out.traces_validated += 1
+            else:
+                out.mismatch(f"{rep['detector']}: the model's callback keyword arguments '{g}' differ from detector.statistical_kwargs '{val}'", rep)
+            continue
         if rep.get("wiring"):
             toks = g.split(" ")
             if len(toks) == 2 and int(toks[1]) == rep["b"] and close(h2f(toks[0][1:]), val, 1e-9):
